@@ -17,6 +17,7 @@ Correspondence
 import itertools
 import os
 import shutil
+import threading
 
 from harness.common import fakeproc
 from harness.common.shrink import ddmin
@@ -163,8 +164,13 @@ class Impl:
     def _write(self, src):
         if self.state == "gone":
             return
-        with self.real_open(os.path.join(self.piddir, src), "w", encoding="utf-8") as f:
+        # atomic: a thread that runs freely (after a drift the scheduler lets every worker finish on its own) must never
+        # read a half-written file
+        path = os.path.join(self.piddir, src)
+        tmp = os.path.join(self.root, ".w-%s-%d" % (src, threading.get_ident()))
+        with self.real_open(tmp, "w", encoding="utf-8") as f:
             f.write(self._content(src))
+        os.replace(tmp, path)
 
     def reset_light(self):
         """fresh Process object over the same (alive, nothing denied) world, every content back to version 1; the files are
